@@ -204,8 +204,8 @@ class C06(Property):
         "the first connect() call of each component is the ping phase by design and is exempt from the 'progress <=> growth' clause",
         "an uncertain-free domain: ConnectNode declares every exchange item, so the stuck set is well defined",
     )
-    cases = {"quick": 2400, "thorough": 40000}
-    min_nontrivial = {"quick": 1000, "thorough": 10000}
+    cases = {"quick": 2400, "thorough": 400000}
+    min_nontrivial = {"quick": 1000, "thorough": 100000}
 
     def gen(self, rnd, i, tier):
         if i % 3 == 2:
